@@ -17,7 +17,8 @@ META = {
     "caller dictionary is mutated, no element parameter or extra attribute is stored, nothing reachable "
     "from the dynamics is memoised; per primitive x engine: no in-place operation on an argument, the "
     "result does not alias an argument unless the interface says so; package-wide: the dynamics never "
-    "read next_states",
+    "read next_states"
+    "; history: the same objects stepped before with other options / engine / array ranks give the same results as a fresh step; every read of next_states met while interpreting Network.step happens in the bookkeeping of ElementWithVars.step, not in the dynamics; state dictionaries are the element's own, no cast to the dtype of caller data",
     "explanation": "Every symbolic value carries a freshness flag (created by this computation vs. may alias "
     "caller/state data) and every dict an ownership mark; the interpreter records each in-place update, "
     "subscript store, `out=` write, dict mutation and attribute store reached on any path of Network.step "
